@@ -3,10 +3,11 @@
 // Monitor: Server.ServeConn is driven over a scripted connection with 2-3
 // pipelined requests; each request is answered by a handler PROGRAM drawn from
 // a grammar over the response-building API. A small model of that API
-// (model.go, sharing no code with fasthttp) predicts status, handler-set
+// (model_test.go, sharing no code with fasthttp) predicts status, handler-set
 // fields and body; the recorded wire bytes are parsed by the independent
 // framing reference (verif/internal/h1) and by net/http.ReadResponse and
-// compared with the prediction (oracle.go).
+// compared with the prediction (oracle_test.go). Generator and the code that
+// performs a program on the real RequestCtx are in gen_test.go.
 package c03
 
 import (
@@ -84,7 +85,7 @@ func TestC03(t *testing.T) {
 	r.Assume("not judged (counted as skipped_*): body content after AppendBody on top of a stream (stream cannot be extended without reading it; either the stream+append or the append alone is accepted); fields named in SetTrailer when the response is not chunked; which of hand-set Content-Length and the stream's declared size wins (only framing is judged: complete response with the full body, or a prefix no longer than the announced length followed by close); value of Content-Length on HEAD/204/304 responses; Transfer-Encoding: chunked sent to HTTP/1.0 clients (counted)")
 	r.Assume("SkipBody is generated only for HEAD requests (documented use); Set after Add on the same name and Del are not generated (header container semantics belong to C29); header injection belongs to C05; timeouts to C16")
 	n := r.N(9000, 170_000)
-	var programs, nethttpOK int64
+	var programs int64
 	mon.Parallel(n, 0, func(i int) {
 		if !r.Want(i) {
 			return
@@ -99,7 +100,6 @@ func TestC03(t *testing.T) {
 			return
 		}
 		res := judge(cs, wire, calls, closed)
-		atomic.AddInt64(&nethttpOK, int64(res.events["nethttp_agrees"]))
 		for k, v := range res.events {
 			r.Event(k, v)
 		}
